@@ -150,6 +150,22 @@ def lint_project(proj: Path, files: dict):
         f.write_bytes(text.encode("utf-8"))
     (proj / ".thailint.yaml").write_text(yaml.safe_dump(CONFIG))
     out, errors = [], []
+    # cqs has no CLI command: through the library API
+    try:
+        from src.orchestrator.core import Orchestrator
+        import os
+        core._reset_singletons()
+        old = os.getcwd()
+        os.chdir(proj)
+        try:
+            for v in Orchestrator(project_root=proj).lint_directory(Path("src")):
+                if v.rule_id.startswith("cqs"):
+                    out.append({"cmd": "cqs", "rule": v.rule_id, "file": str(v.file_path), "line": v.line, "column": v.column, "message": v.message})
+        finally:
+            os.chdir(old)
+            core._reset_singletons()
+    except Exception as exc:  # noqa: BLE001
+        errors.append(f"cqs: {type(exc).__name__}: {exc}")
     for cmd in COMMANDS:
         code, stdout = core.run_cli([cmd, "--format", "json", "src"], cwd=proj)
         vs = core.violations_json(stdout)
@@ -206,7 +222,9 @@ def run(tier: str, seed: int, st: core.ProofStatus) -> core.Result:
                                for i, ln in enumerate(d.lines)]
                     d.log.append(["rename", old, new])
         cases.append((files, docs))
-    # corpus: every unit style of each language, with a comment line (and a blank line) after every decorator / attribute line
+    # corpus: every unit style of each language, edited systematically: (a) a comment line (every third a blank line) after every
+    # decorator / attribute line, (b) a comment line at every position where one cannot change the program, (c) trailing white
+    # space on every line that does not end in a continuation
     from ..gen_constructs import UNITS, Ids
     for lang in ("py", "ts", "rs"):
         ids, lines = Ids("c" + lang), (['"""Corpus."""', "import os", "from typing import (", "    Any,", "    Optional,", ")", "", "", ""] if lang == "py" else ["use std::fs;", ""] if lang == "rs" else [])
@@ -221,6 +239,20 @@ def run(tier: str, seed: int, st: core.ProofStatus) -> core.Result:
             doc.insert(pos, line)
             doc.log.append(["comment" if line else "blank", pos, line])
         cases.insert(0, ({f"src/corpus.{lang}": text}, {f"src/corpus.{lang}": doc}))
+        doc_b = Doc(text, lang)
+        inside_string = False
+        for k, pos in enumerate(reversed(doc_b.safe_insert_positions())):
+            prev = doc_b.lines[pos - 2] if pos >= 2 else ""
+            if lang == "py" and prev.count('"""') % 2 == 1:
+                continue
+            line = f"{'    ' * (k % 3)}{COMMENT[lang]} everywhere {k}"
+            doc_b.insert(pos, line)
+            doc_b.log.append(["comment", pos, line])
+        cases.insert(0, ({f"src/everywhere.{lang}": text}, {f"src/everywhere.{lang}": doc_b}))
+        doc_c = Doc(text, lang)
+        doc_c.lines = [ln + ("  " if k % 2 else " \t") if k >= HEADER_LINES[lang] and not ln.rstrip().endswith("\\") else ln for k, ln in enumerate(doc_c.lines)]
+        doc_c.log.append(["trailing"])
+        cases.insert(0, ({f"src/trailing.{lang}": text}, {f"src/trailing.{lang}": doc_c}))
     root = core.scratch_dir("c13")
     try:
         impls = core.pmap(impl_case, [(i, files, {rel: d.render() for rel, d in docs.items()}, str(root)) for i, (files, docs) in enumerate(cases)], procs=16, chunksize=1)
@@ -260,12 +292,17 @@ def run(tier: str, seed: int, st: core.ProofStatus) -> core.Result:
         mapped = {}
         for rel, d in docs.items():
             want_lines = sorted({v["line"] for v in im["before"] if v["file"] == rel} |
+                                {int(x) for v in im["before"] if v["file"] == rel for x in re.findall(r"\bLine (\d+):", v["message"])} |
                                 {int(x) for v in im["before"] for f_, s_, e_ in re.findall(r"(src/\S+?\.\w+):(\d+)-(\d+)", v["message"]) if f_ == rel for x in (s_, e_)})
             ms = drv.call({"prop": PROP, "op": "shift", "positions": d.inserts, "lines": want_lines})["mapped"]
             mapped[rel] = dict(zip(want_lines, ms))
         shifted_above = False
 
-        def norm_msg(msg, remap):
+        def norm_msg(msg, remap, own=None):
+            if remap and own in mapped:
+                # cqs messages list the lines of the operations they found ("Line 12: x = fetch()")
+                msg = re.sub(r"\bLine (\d+):", lambda mo: f"Line {mapped[own].get(int(mo.group(1)), int(mo.group(1)))}:", msg)
+
             def rep(mo):
                 f_, s_, e_ = mo.group(1), int(mo.group(2)), int(mo.group(3))
                 if remap and f_ in mapped:
@@ -286,7 +323,7 @@ def run(tier: str, seed: int, st: core.ProofStatus) -> core.Result:
         for v in im["before"]:
             nl = mapped.get(v["file"], {}).get(v["line"], v["line"])
             shifted_above = shifted_above or nl != v["line"]
-            exp.append([v["rule"], v["file"], nl, norm_msg(apply_renames(v["message"], v["file"]), True)])
+            exp.append([v["rule"], v["file"], nl, norm_msg(apply_renames(v["message"], v["file"]), True, v["file"])])
         got = [[v["rule"], v["file"], v["line"], norm_msg(v["message"], False)] for v in im["after"]]
         # dry messages list ranges of *other* files too: renames inside those are not applied (dup blocks are never renamed)
         exp.sort()
